@@ -11,7 +11,11 @@ import (
 	"fmt"
 	"io"
 	"path/filepath"
+	"sort"
+	"strings"
 	"testing"
+
+	"github.com/TheCacophonyProject/thermal-recorder/headers"
 )
 
 type streamOpts struct {
@@ -394,6 +398,25 @@ func TestVerif_C14Pipe(t *testing.T) {
 			})
 		})
 	}
+}
+
+// TestVerif_C14Agree reports the constants cmd/thermal-recorder is compiled
+// with; the driver compares them with cmd/leptond's (see harness/leptond-main).
+func TestVerif_C14Agree(t *testing.T) {
+	c := vStart(t, "C14", "TestVerif_C14Agree")
+	defer c.Finish()
+	if c.Shard != 0 {
+		return
+	}
+	c.Case(0, func() interface{} { return "constants compiled into cmd/thermal-recorder" }, func() {
+		keys := []string{headers.XResolution, headers.YResolution, headers.FrameSize, headers.Model, headers.Brand, headers.FPS, headers.Serial, headers.Firmware}
+		sort.Strings(keys)
+		c.Note("agree:clear_marker", clearBuffer)
+		c.Note("agree:header_keys", strings.Join(keys, ","))
+		c.Note("agree:lepton_frame_bytes", leptonTelemetryBytes+2*160*120)
+		c.Count("constant_sets_reported", 1)
+		c.Nontrivial(vNewHash().Str(clearBuffer).Str(strings.Join(keys, ",")).Int(1).Sum())
+	})
 }
 
 func headerClass(sent, got pCamera) string {
